@@ -45,6 +45,8 @@ pub struct Node {
     pub rx_verify: Receiver<VerifyRequest>,
     pub rx_stats: Receiver<String>,
     pub handler_calls: u64,
+    /// the block the mining thread was last told to work on (its only source of the tip)
+    pub miner_target: Option<(u64, [u8; 32])>,
 }
 
 #[derive(Clone, Copy, Debug, PartialEq, Eq)]
@@ -158,6 +160,7 @@ impl Node {
             rx_verify,
             rx_stats,
             handler_calls: 0,
+            miner_target: None,
         }
     }
 
@@ -174,7 +177,10 @@ impl Node {
     }
 
     pub fn drain_side_channels(&mut self) {
-        while self.rx_miner.try_recv().is_ok() {}
+        while let Ok(ev) = self.rx_miner.try_recv() {
+            let MiningEvent::LongestChainBlockAdded { hash, block_id, .. } = ev;
+            self.miner_target = Some((block_id, hash));
+        }
         while self.rx_stats.try_recv().is_ok() {}
     }
 
@@ -218,7 +224,9 @@ impl Node {
                 Err(_) => Ok(false),
             },
             Queue::Miner => {
-                let _ = self.rx_miner.try_recv();
+                if let Ok(MiningEvent::LongestChainBlockAdded { hash, block_id, .. }) = self.rx_miner.try_recv() {
+                    self.miner_target = Some((block_id, hash));
+                }
                 Ok(false)
             }
         };
